@@ -1,5 +1,5 @@
 from .. import common, mir
-from ..rules import c07, c07_scan, c11, c12, c11_r3, c18, dec
+from ..rules import c07, c07_scan, c07_dense, c11, c12, c11_r3, c18, dec
 
 
 def run(tier, replay=None):
@@ -26,4 +26,5 @@ def run(tier, replay=None):
         c11_r3.run(rep, crate, cfg)
         # the sparse back-end visits every word of its bit-packed tail (C07-R5)
         c07_scan.run(rep, crate, cfg)
+        c07_dense.run(rep, crate, cfg)
     return rep.finish("other", "configuration independence: structural preconditions", "./check C07 %s" % tier)
